@@ -257,3 +257,110 @@ func checkC09(c *Ctx) {
 	checkMonitorTable(c)
 	c.floor("T-FLOW(join)", 60, "8 joins x 8 obligations + 8 wrappers")
 }
+
+func init() {
+	props = append(props, propSpec{ID: "C20", Level: "translation_validation", Run: checkC20,
+		Explanation: "Translation validation of the generators' output: every types/*/generated.go is unified token by token, declaration by declaration, with types/gen/template.go under one consistent binding of ObjectType (whose kind must be the package's), and every join/generated_*.go with the text/template literal of join/gen/main.go instantiated from the generated function's own signature. Plus (level other) template robustness on the instances (comma-ok assertions, foreign objects skipped in adaptList and the typed event loop, non-blocking forwarding, 1:1 forwarding methods) and typed clients checked against client-go's own typed client for the kind (API group accessor and Resource(\"…\") literal), with ns/res/ctx reaching the REST request in both list and watch.",
+		Assumptions: []string{"typed-vs-untyped differential behaviour is argued from instance==template plus the robustness rules, not executed", "HTTP paths produced by rest.Request are third-party"}})
+}
+
+func checkC20(c *Ctx) {
+	tvPrograms, tvNodes = 0, 0
+	checkTypedInstances(c)
+	checkJoinInstances(c)
+	rels := typedRelsQuick(c)
+	for _, r := range rels {
+		checkTypedRobustness(c, r)
+		checkTypedMonitor(c, r)
+	}
+	checkTypedClients(c, typedRels(c))
+	c.floor("T-INSTANCE(typed)", 13, "12 typed packages")
+	c.floor("T-INSTANCE(join)", 9, "8 generated joins")
+	c.floor("T-SIBLING(NewClient)", 15, "12 clients + ForResource + 2 closures")
+	c.floor("T-SHAPE(typed)", 20, "robustness rules on one instance")
+}
+
+func init() {
+	props = append(props,
+		propSpec{ID: "C02", Level: "other", Run: checkC02,
+			Explanation: "Event columns of the cache decision tables (doUpdate, doSync item step and sweep): Create only on rows with the key absent, Update only with the key present and a strictly newer version, Delete only with the key present, and no event at all on rows that change nothing; the emitted object and type are the row's; every mutator returns exactly the events it built. Plus publish-what-was-returned: the controller and the filtered subscription distribute exactly the []Event result of the cache call of the same iteration, through a complete single forward range with one delivery per element, and nothing else can send on those channels.",
+			Assumptions: []string{"event order inside one batch is free (sets are compared); sequential replay well-formedness follows from the per-key rows"}},
+		propSpec{ID: "C07", Level: "other", Run: checkC07,
+			Explanation: "Refilter rows of the filterSubscription transition table (equal filter on a ready subscription: no cache call and no event; changed filter: list the parent, cache.refilter(list, f), remember f, distribute exactly the refilter's events) combined with the doSync table restricted to equal versions (kept / one delete / one create) and doRefilter = install filter then sync; soundness of the equal-filter short-circuit is C17's rules (re-evaluated here).",
+			Assumptions: []string{"'no parent events in flight' is the property's premise"}},
+		propSpec{ID: "C08", Level: "other", Run: checkC08,
+			Explanation: "Readiness: the controller closes its ready channel only on the first successful sync (table rows: no error row closes, initial events are not distributed, reset follows); filtered subscriptions close theirs only on the rows of the transition table that have synced the private cache (deferred ones start from the reject-all filter, which is what makes the unsynced-equal row sound); every Ready() accessor hands out that very channel (value-flow); the only close(readych) sites are the two run loops; distribution happens only on rows with ready=T; the watcher cannot hand out events before the first reset (initial state); joins refilter only from monitor callbacks.",
+			Assumptions: []string{"drained-state statements are compositions of the per-step rows"}},
+		propSpec{ID: "C14", Level: "other", Run: checkC14,
+			Explanation: "Error rows of the controller table (each of the list failure kinds initiates shutdown with a cause derived from the failing call's error; a deliberate Close passes nil), shapes of executeList / extractList / listResourceVersion (client error, non-list object, non-object element), Error() returns the lifecycle's error; watch failures stay inside the session: the watcher initiates its own shutdown only on a shutdown request and re-arms a retry on every session end, the session uses its connection only after the connect error check.",
+			Assumptions: []string{"timing only is left undecided"}},
+		propSpec{ID: "C15", Level: "other", Run: checkC15,
+			Explanation: "A static race-freedom and atomicity argument for all schedules: the cache's items/filter fields are accessed only by functions confined to the single run goroutine (started once), requests and replies travel over channels; each handler (doSync/doRefilter/doUpdate/doList) runs to completion inside one select arm with no channel operation, goroutine or foreign call; the run loop replies with the handler's own result computed before the reply; List returns a fresh slice filled from every entry; the map itself never escapes.",
+			Assumptions: []string{"mutation of the shared objects by callers is outside C15", "Go memory model: channel send happens-before the matching receive"}})
+}
+
+func checkC02(c *Ctx) {
+	m := newCacheModel(c)
+	m.checkDoUpdate()
+	m.checkDoSync()
+	m.checkDoRefilter()
+	m.checkHelpers()
+	m.checkRunLoop()
+	checkControllerTable(c)
+	checkControllerDistribute(c)
+	checkFilterSubscriptionTable(c)
+	checkFSubDistribute(c)
+	checkEventPathSingleSender(c)
+	c.floor("T-TABLE(doUpdate)", 8, "doUpdate paths")
+	c.floor("T-TABLE(doSync.item)", 8, "doSync item paths")
+	c.floor("T-SHAPE(distribute)", 2, "controller + filterSubscription distributors")
+}
+
+func checkC07(c *Ctx) {
+	checkFilterSubscriptionTable(c)
+	checkFilterSubscriptionFlows(c)
+	checkFSubDistribute(c)
+	m := newCacheModel(c)
+	m.checkDoSync()
+	m.checkDoRefilter()
+	checkFilterEquality(c)
+	c.floor("T-TABLE(filterSubscription.run)", 20, "iteration paths")
+	c.floor("T-COVERS(Equals)", 11, "comparable filters")
+}
+
+func checkC08(c *Ctx) {
+	checkControllerTable(c)
+	checkFilterSubscriptionTable(c)
+	checkFilterSubscriptionFlows(c)
+	checkReadyPlumbing(c)
+	checkWatcherTable(c)
+	checkGeneratedJoinShape(c)
+	checkMonitorTable(c)
+	c.floor("T-FLOW(ready)", 9, "ready accessors and forwarders")
+	c.floor("T-WHO(close-readych)", 3, "2 closing functions + site count")
+}
+
+func checkC14(c *Ctx) {
+	checkControllerTable(c)
+	checkListHelpers(c)
+	checkControllerAPI(c)
+	checkWatcherTable(c)
+	checkSessionTable(c)
+	checkSessionDeferOrder(c)
+	checkSessionFlows(c)
+	runs := findRunFuncs(c.P, []string{""})
+	checkLifecycleOnce(c, runs)
+	c.floor("T-TABLE(controller.run)", 14, "controller paths")
+	c.floor("T-SHAPE(list-helpers)", 3, "three helpers")
+}
+
+func checkC15(c *Ctx) {
+	m := newCacheModel(c)
+	m.checkConfinement()
+	checkAtomicHandlers(c)
+	m.checkDoList()
+	m.checkRunLoop()
+	m.checkKeySites()
+	c.floor("T-CONFINE(_cache)", 8, "field accessors and call sites")
+	c.floor("T-BLOCK(cache-handlers)", 6, "6 handler/helper functions")
+}
